@@ -9,9 +9,17 @@ reply   : aff=<0|1> wf=<0|1> spec=<0|1> tie=<0|1> old=<0|1>
           alternate — events may share a version); spec = the order-free specification `osvDecl` at record level (`specAffectedB`);
           tie  = some range has two events on one rank; old = the decision procedure before the tie repair (informational, not compared)
 `known` ecosystems are 0 (npm), 1 (Maven), 2 (PyPI).
+
+request : match <minSeverity·100> <maxDepth> <devDeps> <devOnly> <ignoreIds|-> <id> <aliases|-> <topSeverities|-> <nSub> { <eco> <name> <version> <rootDistance> }
+                <nAffected> { <eco> <name> <versions|-> <severities|-> <nRanges> { <E|S|O> <events|-> } }
+          ids = n.n.n; severities = indices into the harness's severity table (`sevScore` below mirrors it)
+reply   : match=<0|1> prof=<bits> wf=<0|1> spec=<match>:<prof>     prof = MatchVuln at the thresholds `profile` with everything else unchanged
+request : vkpkg <system 0..3> <hex name> <hex version>
+reply   : eco=<hex> name=<hex> ver=<hex> purl=<type>|<hex ns>|<hex name>|<hex version> or purl=nil, stubs=-|nil|0 (mock extractor Name, Requirements, Version)
 -/
 import Scalibr.Base.Wire
 import Scalibr.Spec.Vulns
+import Scalibr.Spec.MatchVuln
 open Scalibr Scalibr.Vulns Scalibr.Wire
 
 def parseEv (s : String) : Option Ev :=
@@ -59,8 +67,78 @@ def isAffectedOld (vuln : List Affected) (p : Pkg) : Bool :=
       (a.versions.contains p.vid ||
        a.ranges.any fun r => rangeApplies a r && rangeDecisionOld r.events p.version)
 
+/-- the harness's severity table (`sevTable` in c18gen): `CalculateScore` in tenths, `none` = error (skipped) -/
+def sevScore : Nat → Option Int
+  | 0 => some 98 | 1 => some 75 | 2 => some 61 | 3 => some 25 | 4 => some 75 | 5 => some 93
+  | 6 => none | 7 => some (-10) | 8 => none | 9 => some 0 | 10 => some 42
+  | _ => none
+
+def profile : List Nat := [1, 250, 420, 610, 750, 930, 980, 990]
+
+def natList (s : String) : Option (List Nat) := (listOf s ".").mapM (·.toNat?)
+
+def parseSubs : Nat → List String → Option (List SubG × List String)
+  | 0, ts => some ([], ts)
+  | n+1, eco :: name :: ver :: dist :: ts =>
+    match eco.toNat?, name.toNat?, ver.toNat?, dist.toNat?, parseSubs n ts with
+    | some eco, some name, some ver, some dist, some (ss, rest) => some (⟨⟨eco, name, ver % 100, ver⟩, dist⟩ :: ss, rest)
+    | _, _, _, _, _ => none
+  | _, _ => none
+
+def parseAffS : Nat → List String → Option (List AffS × List String)
+  | 0, ts => some ([], ts)
+  | n+1, eco :: name :: vers :: sev :: nr :: ts =>
+    match eco.toNat?, name.toNat?, natList vers, natList sev, nr.toNat? with
+    | some eco, some name, some vs, some sev, some nr =>
+      match parseRanges nr ts with
+      | some (rs, rest) =>
+        match parseAffS n rest with
+        | some (as, rest') => some (⟨⟨eco, name, vs, rs⟩, sev⟩ :: as, rest')
+        | none => none
+      | none => none
+    | _, _, _, _, _ => none
+  | _, _ => none
+
+def handleMatch : List String → String
+  | minH :: maxD :: devDeps :: devOnly :: ign :: id :: aliases :: top :: nSub :: rest =>
+    match minH.toNat?, maxD.toInt?, natList ign, id.toNat?, natList aliases, natList top, nSub.toNat? with
+    | some minH, some maxD, some ign, some id, some aliases, some top, some nSub =>
+      match parseSubs nSub rest with
+      | some (subs, na :: rest') =>
+        match na.toNat? with
+        | some na =>
+          match parseAffS na rest' with
+          | some (affected, []) =>
+            let v : VulnM := ⟨id, aliases, top, devOnly = "1", subs, affected⟩
+            let o : MOpts := ⟨ign, devDeps = "1", minH, maxD⟩
+            let wf := affected.all fun x => x.a.ranges.all fun r => WF r.events
+            let prof (f : MOpts → Bool) : String := String.join (profile.map fun h => boolStr (f { o with minH := h }))
+            s!"match={boolStr (matchVuln sevScore known o v)} prof={prof (matchVuln sevScore known · v)} wf={boolStr wf} spec={boolStr (specMatchVuln sevScore known o v)}:{prof (specMatchVuln sevScore known · v)}"
+          | _ => "bad-op"
+        | none => "bad-op"
+      | _ => "bad-op"
+    | _, _, _, _, _, _, _ => "bad-op"
+  | _ => "bad-op"
+
+/-- hx.Hex / hx.UnHex: the empty string travels as "-" -/
+def hexS (s : String) : String := if s = "" then "-" else hexOfStr s
+def unhexS (s : String) : Option String := if s = "-" then some "" else strOfHex s
+
+def handleVk : List String → String
+  | [sys, name, ver] =>
+    match sys.toNat?, unhexS name, unhexS ver with
+    | some sys, some name, some ver =>
+      let purl := match vkPurl sys name ver with
+        | some (t, ns, n, v) => s!"{t}|{hexS ns}|{hexS n}|{hexS v}"
+        | none => "nil"
+      s!"eco={hexS (vkEcosystem sys)} name={hexS name} ver={hexS ver} purl={purl} stubs=-|nil|0"
+    | _, _, _ => "bad-op"
+  | _ => "bad-op"
+
 def handle (line : String) : String :=
   match line.splitOn " " with
+  | "match" :: rest => handleMatch rest
+  | "vkpkg" :: rest => handleVk rest
   | "isaff" :: pe :: pn :: pv :: na :: rest =>
     match pe.toNat?, pn.toNat?, pv.toNat?, na.toNat? with
     | some pe, some pn, some pv, some na =>
